@@ -327,14 +327,15 @@ PROPS["C17"] = Prop(sort_names=True,
 PROPS["C18"] = Prop(sort_names=True,
     rule="EXHAUSTIVE over kind x kind x operator: 20 values (8 floats incl. +-0, 6 Dual, 6 Dual2, some sharing storage) "
          "all ordered pairs x {+,-,*,/,%} through the Number container, 6 comparisons, float on either side, "
-         "set_order(_clone) to orders 0/1/2 with 5 name lists, From conversions; refusal observed via catch_unwind",
+         "set_order(_clone) to orders 0/1/2 with 5 name lists, From conversions; negation, abs, signum and Pow<f64> both "
+         "on the contained type and on the container itself, owned and borrowed; refusal observed via catch_unwind",
     classify=_cls_c18, mode="vexact", exhaustive=lambda tier: True, trusted=_dual_trusted, assumptions=_dual_assume)
 
 PROPS["C19"] = Prop(sort_names=True,
     rule="random Dual/Dual2 pairs over all layouts of a 3-name pool with all sign combinations: 6 comparisons, float "
          "comparisons on both sides, abs, signum, % in the three operand forms, zero/one neutrality, sums of length 0..8 "
          "(typed and through Number), the LIBRARY'S OWN zero and one elements (Zero::zero, One::one, is_zero, is_one) "
-         "on either side of + and *, typed and through Number; once per run all 7 x 7 pairs of {0, -0, NaN, +-inf, +-1.5} for both types through "
+         "on either side of + and *, typed and through Number, the sign tests is_positive / is_negative (sign bit); once per run all 7 x 7 pairs of {0, -0, NaN, +-inf, +-1.5} for both types through "
          "every comparison form (IEEE order is not total there). non-trivial = every op line",
     classify=_cls_c19, mode="vexact", exhaustive=lambda tier: False, trusted=_dual_trusted, assumptions=_dual_assume)
 
